@@ -25,7 +25,140 @@ OBLIGATIONS_FLAT = ['C01Flat.settled_exists', 'C01Flat.settled_unique', 'C01Flat
                     'C01Flat.exF_wf', 'FlatM.eval_congr', 'FlatM.kind_eval', 'FlatM.reg_body_exec', 'FlatM.comb_corr',
                     'FlatM.cycle_corr', 'FlatM.run_corr', 'FlatM.FlatDesign.seqCorr', 'FlatM.settlePass_rd', 'FlatM.settleLoop_rd',
                     'FlatM.exec_nba', 'FlatM.cycle_rd', 'FlatM.FlatDesign.cycOK', 'FlatM.FlatDesign.ship_run',
-                    'FlatM.kind_inst_prop', 'FlatM.reg_inst_clock']
+                    'FlatM.kind_inst_prop', 'FlatM.reg_inst_clock',
+                    'C01Flat.mkSim_shipInv', 'C01Flat.check_wf', 'C01Flat.text_run', 'C01Flat.text_powerup', 'C01Flat.exS_text',
+                    'C01Flat.exS_check', 'FlatM.FlatSrc.flatten_emit', 'FlatM.FlatSrc.flatS_perm', 'FlatM.FlatSrc.check_sound']
+
+
+# ---- flat-text stream: the elaboration theorem `C01Flat.text_run` is tied to the REAL text per design -------------------------------
+# For a design whose top block has only covered primitives and Regs as children the exporter below imports the description
+# (`FlatM.FlatSrc`) from the live object graph; lean/Drv/C01Flat.lean then decides (i) parsed real text == `FlatSrc.emit` of it
+# (decidable equality on V.Design) and (ii) `FlatSrc.check` (sound for the hypotheses of `text_run`: `FlatSrc.check_sound`).
+FLAT_KINDS = ['And2', 'Or2', 'Not', 'Buf', 'Mux2', 'Sub', 'Mul', 'AddCarryIn', 'Constant', 'ShiftLeftConstant', 'ShiftRightConstant',
+              'Bit', 'Range', 'ZeroExtend', 'Reg']
+
+
+class NotFlat(Exception):
+    pass
+
+
+def export_flat(top):
+    """-> dict(widths, names, inputs, outputs, children, kinds_idx); raises NotFlat(reason) when a child is not covered"""
+    from py4hw.rtl_generation import getWireNames, getInstanceName, getVerilogModuleName
+    from py4hw.base import Wire
+    if not top.children:
+        raise NotFlat('no children')
+    names_of = getWireNames(top)
+    ids, widths, names = {}, [], []
+
+    def nid(w):
+        if w is None:
+            return 0
+        if not isinstance(w, Wire):
+            raise NotFlat('fake wire')
+        if w not in ids:
+            if w not in names_of:
+                raise NotFlat('wire outside scope')
+            ids[w] = len(widths)
+            widths.append(w.getWidth())
+            names.append(names_of[w])
+        return ids[w]
+
+    def nat(v, what):
+        if isinstance(v, bool) or not isinstance(v, int) or v < 0:
+            raise NotFlat(what + ' not a natural')
+        return v
+    if top.inOutPorts:
+        raise NotFlat('inout port')
+    inputs = [nid(p.wire) for p in top.inPorts]
+    outputs = [nid(p.wire) for p in top.outPorts]
+    children, kinds_idx = [], {}
+    g = lambda *ws: ' '.join(str(nid(w)) for w in ws)
+    for ch in top.children.values():
+        k = type(ch).__name__
+        if k == 'And2': c = f'(prim and2 {g(ch.a, ch.b, ch.r)})'
+        elif k == 'Or2': c = f'(prim or2 {g(ch.a, ch.b, ch.r)})'
+        elif k == 'Not': c = f'(prim not1 {g(ch.a, ch.r)})'
+        elif k == 'Buf': c = f'(prim buf {g(ch.a, ch.r)})'
+        elif k == 'ZeroExtend': c = f'(prim zext {g(ch.a, ch.r)})'
+        elif k == 'Bit': c = f"(prim bit {nid(ch.a)} {nat(ch.bit, 'bit')} {nid(ch.r)})"
+        elif k == 'Mux2': c = f'(prim mux2 {g(ch.sel, ch.sel0, ch.sel1, ch.r)})'
+        elif k == 'Constant': c = f"(prim const {nat(ch.value, 'constant')} {nid(ch.r)})"
+        elif k == 'ShiftLeftConstant': c = f"(prim shl {nid(ch.a)} {nat(ch.getParameterValue('n'), 'shift')} {nid(ch.r)})"
+        elif k == 'ShiftRightConstant': c = f"(prim shr {nid(ch.a)} {nat(ch.getParameterValue('n'), 'shift')} {nid(ch.r)})"
+        elif k == 'AddCarryIn': c = f'(prim addc {g(ch.a, ch.b, ch.ci, ch.r)})'
+        elif k == 'Sub': c = f'(prim sub {g(ch.a, ch.b, ch.r)})'
+        elif k == 'Mul': c = f'(prim mul {g(ch.a, ch.b, ch.r)})'
+        elif k == 'Range': c = f"(prim range {nid(ch.a)} {nat(ch.high, 'range')} {nat(ch.low, 'range')} {nid(ch.r)})"
+        elif k == 'Reg':
+            c = (f"(reg {getInstanceName(ch)} {getVerilogModuleName(ch)} {int(ch.r is not None)} {int(ch.e is not None)} "
+                 f"{nat(ch.reset_value, 'reset value')} {nid(ch.d)} {nid(ch.e)} {nid(ch.r)} {nid(ch.q)})")
+        else:
+            raise NotFlat('kind ' + k)
+        if k != 'Reg':
+            kinds_idx[ch] = len(kinds_idx)
+        children.append(c)
+    return dict(widths=widths, names=names, inputs=inputs, outputs=outputs, children=children, kinds_idx=kinds_idx)
+
+
+def flat_src(d, tree):
+    """S-expression of the imported description, or raises NotFlat"""
+    from py4hw.rtl_generation import getVerilogModuleName
+    top = d['top']
+    exp = export_flat(top)
+    topmod = tree[1]
+    name_to_id = {n: i for i, n in enumerate(exp['names'])}
+    try:
+        locals_ = [name_to_id[it[1]] for it in topmod[4][1:] if it[0] == 'wire']
+    except KeyError:
+        raise NotFlat('declared wire unknown to the children')
+    sim = d['hw'].getSimulator()
+    order = [exp['kinds_idx'][l] for l in sim.propagatables if l in exp['kinds_idx']]
+    if any(' ' in n or '(' in n or ')' in n for n in exp['names']):
+        raise NotFlat('name not an atom')
+    L = lambda xs: ' '.join(str(x) for x in xs)
+    return (f"(src {getVerilogModuleName(top, noInstanceNumber=True)} {d['hw'].clockDriver.name} (widths {L(exp['widths'])}) "
+            f"(names {L(exp['names'])}) (inputs {L(exp['inputs'])}) (outputs {L(exp['outputs'])}) (locals {L(locals_)}) "
+            f"(children {' '.join(exp['children'])}) (order {L(order)}))")
+
+
+class FlatBatch:
+    """(parsed real text, imported description) pairs for lean/Drv/C01Flat.lean"""
+
+    def __init__(self, res):
+        self.res, self.lines, self.meta = res, [], []
+
+    def add(self, d, tree, text, stream):
+        try:
+            src = flat_src(d, tree)
+        except NotFlat as e:
+            self.res.hist('flat_text_' + stream, 'not-covered:' + str(e))
+            return
+        except Exception as e:
+            self.res.hist('flat_text_' + stream, 'export-error:' + type(e).__name__)
+            return
+        self.lines += ['design ' + vparse.sexp(tree), 'src ' + src, 'check']
+        self.meta.append(dict(stream=stream, kind=d['kind'], desc=d['desc'], text=text, src=src))
+
+    def run(self):
+        if not self.lines:
+            return
+        try:
+            out = run_driver('Drv/C01Flat.lean', self.lines)
+        except ToolFailure as e:
+            self.res.broken.append(('correspondence', 'flat-text-driver', str(e)[:400]))
+            return
+        for m, o in zip(self.meta, out[2::3]):
+            if o == 'ok':
+                self.res.hist('flat_text_' + m['stream'], 'covered: text == FlatSrc.emit and FlatSrc.check')
+                self.res.count(('flat-text', m['src']), hist={})
+            elif o.startswith('fails '):
+                # outside the hypotheses of the theorem (a literal >= 2^31, a bit index outside its operand, two drivers, …)
+                self.res.hist('flat_text_' + m['stream'], 'not-covered:check ' + o[6:])
+            else:
+                # the real emitter wrote something else than the model of the theorem for a design the model covers
+                self.res.hist('flat_text_' + m['stream'], 'TEXT-DIFFERS')
+                self.res.disagree('flat-text', dict(kind=m['kind'], desc=m['desc'], driver=o[:1500], text=m['text'][:2000], src=m['src'][:1500]))
 
 
 def widths_of(mod):
@@ -185,6 +318,7 @@ def main(res, tier, rng, replay):
     vb = vsim.VBatch()
     jobs = []
     nb = D.NetBatch(res, 'net-sim')
+    fb = FlatBatch(res)
     for i in range(n):
         r = rng.fork(('d', i))
         kind = ['plan', 'lib', 'hier', 'c07', 'c08'][i % 5]
@@ -239,6 +373,8 @@ def main(res, tier, rng, replay):
             continue
         top = tree[1][1]
         clk = d['hw'].clockDriver.name
+        if kind in ('plan', 'lib'):
+            fb.add(d, tree, text, kind)
         vb.add(text, top, clk, hist, list(d['outputs']), label=len(jobs), tree=tree)
         # power-up drives every input with 0: for Div/Mod/SignedDiv that is a division by zero (excluded by the property)
         job = dict(desc=desc, hist=hist, trace=tr, tags=tags, text=text, patched=None, nondet0=d.get('nondet_div'))
@@ -253,6 +389,23 @@ def main(res, tier, rng, replay):
             res.hist('verilog_constructs', k_, c_)
         if i < 3:
             res.sample(dict(design=desc, inputs_per_cycle=hist[:3], verilog=text[:600]))
+    # dedicated stream: netlists of covered kinds only (text tie + hypotheses of `C01Flat.text_run`; not simulated again)
+    for i in range(60 if tier == 'quick' else 1500):
+        r = rng.fork(('flat', i))
+        try:
+            d = GV.plan_design(r, wmax=r.choice([1, 2, 3, 8, 16, 33]), kinds=FLAT_KINDS)
+            text = vsim.gen_text(py4hw.VerilogGenerator(d['top']), d['top'])
+            tree = vparse.parse(text)
+        except Exception as e:
+            res.hist('flat_text_flatplan', 'build-error:' + type(e).__name__)
+            continue
+        fb.add(d, tree, text, 'flatplan')
+    fb.run()
+    hp = res.cov['histograms'].get('flat_text_plan', {})
+    tot = sum(hp.values())
+    cov_n = sum(v for k, v in hp.items() if k.startswith('covered'))
+    res.cov['flat_theorem_coverage_of_plan_stream'] = (f'{cov_n}/{tot} plan designs are covered by C01Flat.text_run (children all in Kind ∪ Reg, '
+                                                       f'parsed text == FlatSrc.emit, FlatSrc.check); reasons of the others: histogram flat_text_plan')
     try:
         results = vb.run()
     except ToolFailure as e:
